@@ -315,9 +315,9 @@ func attributeCrash(self string, p Property, seed uint64, i int, enumerated bool
 		tf := base + ".cand"
 		limit := childStall
 		tries := 0
-		deadline := time.Now().Add(4 * time.Minute)
+		deadline := time.Now().Add(150 * time.Second)
 		fails := func(e []uint64) bool {
-			if tries >= 400 || time.Now().After(deadline) {
+			if tries >= 250 || time.Now().After(deadline) {
 				return false
 			}
 			tries++
@@ -333,7 +333,7 @@ func attributeCrash(self string, p Property, seed uint64, i int, enumerated bool
 			limit = 20 * time.Second // candidates that stall are accepted after 20 s; the final confirmation uses the full limit
 		}
 		if fails(entries) {
-			small := shrinkCore(entries, fails, func() bool { return tries < 400 && time.Now().Before(deadline) })
+			small := shrinkCore(entries, fails, func() bool { return tries < 250 && time.Now().Before(deadline) })
 			// final confirmation with journal, full limit
 			limit = childStall
 			writeTapeFile(tf, small)
